@@ -88,18 +88,19 @@ def run(ck):
     ck.notes["out_of_scope_reasons"] = reasons
     L = F.load_layouts()[0]
     srcs = [F.render(v["r"], L) for v in scope]
-    ires = F.run_impl(h, srcs, timeout_ms=IMPL_TIMEOUT_MS)
+    fields = [vec_fields(v) for v in scope]
+    ires = F.run_impl(h, srcs, timeout_ms=IMPL_TIMEOUT_MS, expect_hang=set(i for i, f in enumerate(fields) if f[2]))
     # parser self-check on the simulated programs (their vectors carry the tree): Abs(Parse(text)) = tree
     withtree = [i for i, v in enumerate(scope) if "t" in v]
     tres = F.run_impl(h, [srcs[i] for i in withtree], abs_=True, timeout_ms=IMPL_TIMEOUT_MS)
     bad_tree = [i for i, r in zip(withtree, tres)
-                if r.get("abs") != F.norm_tree(scope[i]["t"]) and "Dev_TestBangPrecedence" not in scope[i]["trig"]]
+                if r.get("abs") != F.norm_tree(scope[i]["t"])
+                and not ("[[ ! -n" in srcs[i] and "Dev_TestBangPrecedence" in devs)]     # known: `!` binds too loosely in [[ ]]
     ck.notes["parser_selfcheck"] = {"programs": len(withtree), "tree_differs": len(bad_tree),
                                     "samples": [srcs[i] for i in bad_tree[:3]]}
     if len(bad_tree) > max(3, 0.02 * len(withtree)):
         raise vlib.Inconclusive("the parser builds a different tree than the generator for %d of %d programs, e.g. %r" % (
             len(bad_tree), len(withtree), srcs[bad_tree[0]]))
-    fields = [vec_fields(v) for v in scope]
     mism = [i for i, (f, r) in enumerate(zip(fields, ires)) if (r.get("out"), r.get("status")) != f[0]]
 
     def explained(i):
@@ -160,3 +161,5 @@ def replay(ck, rec):
     b = F.run_bash([v["src"]])[0]
     dexp = tuple(v["dexp"]) if v.get("dexp") else None
     judge(ck, v["src"], tuple(v["exp"]), dexp, v.get("dfuel", False), v.get("trig", []), ir, (b[0], b[1]), {"vector": v})
+    if ck.drifts:     # the expected value of the vector disagrees with interp AND bash: the vector is wrong, not the code
+        raise vlib.Inconclusive("SPEC-DRIFT: expected %r but interp and bash both give %r" % (tuple(v["exp"]), (b[0], b[1])))
